@@ -32,6 +32,7 @@ RULE += (' Also: the whole use made from inside an except block of the caller.')
 RULE += (' Also: Stop(Async)Iteration / RuntimeError subclasses with value equality; handlers raising a new but equal instance.')
 RULE += (' Also: clean-up after the yield raising StopAsyncIteration / RuntimeError; exceptions with lenient equality.')
 RULE += (" Also: clean-up failing with a RuntimeError whose cause is another RuntimeError raised from the block's exception.")
+RULE += (" Also: proper subclasses of RuntimeError raised from the block's exception.")
 ASSUMPTIONS = ["contextlib.asynccontextmanager of the running interpreter is the reference",
                "__cause__/__context__ chains and messages are not compared"]
 EXHAUSTIVE = {"quick": True, "thorough": True}
@@ -45,7 +46,8 @@ class New(Exception):
 PRE = ["raise", "noyield", "yield"]
 VALUE = {0: "V", 1: None, 2: 0}  # what the generator yields to ``as``: also None / falsy
 HANDLER = ["none", "finally", "swallow", "reraise", "raise_new", "raise_new_from_none", "raise_same_type", "return",
-           "raise_copy", "raise_copy_from_none", "raise_runtime_chain",
+           "raise_copy", "raise_copy_from_none", "raise_runtime_chain", "raise_runtime_sub_from_exc",
+           "raise_notimplemented_from_exc",
            "yield_again", "raise_sai", "raise_si",
            # the type and chaining of what the generator raises matters to the classification in __aexit__
            "raise_new_from_exc", "raise_runtime", "raise_runtime_from_none", "raise_runtime_from_exc",
@@ -235,6 +237,12 @@ def make(pre, handler, after, log, susp):
                     raise New("h") from None
                 elif handler == "raise_same_type":
                     raise type(e)("again")
+                elif handler == "raise_runtime_sub_from_exc":
+                    # a proper SUBCLASS of RuntimeError raised from the block's exception (NotImplementedError,
+                    # RecursionError, a user class): classified like any RuntimeError
+                    raise RuntimeSub("generator") from e
+                elif handler == "raise_notimplemented_from_exc":
+                    raise NotImplementedError("generator") from e
                 elif handler == "raise_runtime_chain":
                     # the clean-up fails with a RuntimeError of its own whose cause is ANOTHER RuntimeError that was
                     # raised from the block's exception: two layers down is not "the promotion of the block's exception"
